@@ -52,14 +52,15 @@ Theorem C01_every_static_code_in_catalogue_partial :
 Proof. exact every_static_code_in_catalogue_partial. Qed.
 Print Assumptions C01_every_static_code_in_catalogue_partial.
 
-(* K1 (finding C01-K1-hex-b-digits): refuted in the lexer model.  K2, K3, K4 (findings C01-K2-unary-after-logical,
+(* K1 (former finding C01-K1-hex-b-digits, repaired in the source): the statement `i = 0xb3ba;` lexes without diagnostic
+   in the lexer model (positive theorem below).  K2, K3, K4 (findings C01-K2-unary-after-logical,
    C01-K3-unary-before-sizeof-or-char, C01-K4-cast-before-char) come from CheckOperatorsSpacing / Context.is_glued_operator,
    which are NOT modelled: they are established on the implementation only, by tools/harness/c01.py. *)
-Theorem C01_refuted_K1 :
+Theorem C01_accepted_K1 :
   shape_k1 (s "0xb3ba") = true /\ int_body (s "0xb3ba") = Some Hex /\
-  lex_one_diag (s "INVALID_SUFFIX") (s "0xb3ba") (s ";") = true /\ k1_observed = true.
-Proof. exact refuted_K1. Qed.
-Print Assumptions C01_refuted_K1.
+  lex_one_ok (s "CONSTANT") (s "0xb3ba") (s ";") = true /\ k1_silent = true.
+Proof. exact accepted_K1. Qed.
+Print Assumptions C01_accepted_K1.
 
 (* non-vacuity *)
 Example C01_example :
